@@ -50,6 +50,85 @@ func builders(c *evid.Ctx, evals, nontriv *int64) {
 	textBuilders(c, evals, nontriv)
 	tagCountBuilders(c, evals, nontriv)
 	paramBuilders(c, evals, nontriv)
+	eventHistories(c, evals, nontriv)
+}
+
+// eventHistories: one event pack object that is written, changed in place and written again (an
+// agent re-sends an event after adding an attribute or assigning its uuid). Every write must equal the
+// reference encoding of the object as it stands: the serialise-only attributes keep the place they
+// got when they were first added.
+func eventHistories(c *evid.Ctx, evals, nontriv *int64) {
+	type op struct {
+		name string
+		do   func(e *pack.EventPack)
+	}
+	var ops []op
+	for _, k := range []string{"a", "b"} {
+		for _, v := range []string{"1", "2"} {
+			k, v := k, v
+			ops = append(ops, op{fmt.Sprintf("Attr.Put(%q,%q)", k, v), func(e *pack.EventPack) { e.Attr.Put(k, v) }})
+		}
+	}
+	for _, u := range []string{"", "u-1", "u-2"} {
+		u := u
+		ops = append(ops, op{fmt.Sprintf("Uuid=%q", u), func(e *pack.EventPack) { e.Uuid = u }})
+	}
+	ops = append(ops,
+		op{"Status=7", func(e *pack.EventPack) { e.Status = 7 }},
+		op{"Escalation=!Escalation", func(e *pack.EventPack) { e.Escalation = !e.Escalation }},
+		op{"Otype=3", func(e *pack.EventPack) { e.Otype = 3 }},
+		op{"Write", nil})
+	depth := 4
+	var rec func(hist []op)
+	run := func(hist []op) {
+		atomic.AddInt64(evals, 1)
+		atomic.AddInt64(nontriv, 1)
+		e := pack.NewEventPack()
+		e.Pcode, e.Oid, e.Time, e.Level, e.Title, e.Message = 5, 6, 7, 2, "title", "message"
+		desc := "NewEventPack()"
+		write := func() bool {
+			var want, got []byte
+			var perr interface{}
+			func() {
+				defer func() { perr = recover() }()
+				want = refPack(e) // before the library writes: Write adds the serialise-only attributes
+				got = pack.ToBytesPack(e)
+			}()
+			if perr != nil {
+				c.Violation("C05:EventPack:history:panic", fmt.Sprintf("%s: %v", desc, perr), map[string]interface{}{"history": desc})
+				return false
+			}
+			if !bytes.Equal(got, want) {
+				c.Violation("C05:EventPack:history:body", fmt.Sprintf("%s: this write differs from the reference encoding of the object as it stands at byte %d (lengths %d/%d)", desc, firstDiff(got, want), len(got), len(want)), map[string]interface{}{"history": desc})
+				return false
+			}
+			return true
+		}
+		for _, o := range hist {
+			desc += " " + o.name
+			if o.do == nil {
+				if !write() {
+					return
+				}
+				continue
+			}
+			o.do(e)
+		}
+		desc += " Write"
+		write()
+	}
+	rec = func(hist []op) {
+		if len(hist) > 0 {
+			run(hist)
+		}
+		if len(hist) == depth {
+			return
+		}
+		for _, o := range ops {
+			rec(append(append([]op{}, hist...), o))
+		}
+	}
+	rec(nil)
 }
 
 func textBuilders(c *evid.Ctx, evals, nontriv *int64) {
@@ -57,7 +136,7 @@ func textBuilders(c *evid.Ctx, evals, nontriv *int64) {
 		name string
 		n    int // records handed over; -1 = one record through AddText
 	}
-	ops := []op{{"AddText", -1}}
+	ops := []op{{"AddText", -1}, {"Write", -2}}
 	for _, n := range []int{0, 1, 2, 31, 32, 33, 64, 65, 200} {
 		ops = append(ops, op{fmt.Sprintf("AddTexts(%d)", n), n})
 	}
@@ -91,6 +170,13 @@ func textBuilders(c *evid.Ctx, evals, nontriv *int64) {
 			desc := st.name
 			for _, o := range hist {
 				desc += " " + o.name
+				if o.n == -2 {
+					func() {
+						defer func() { recover() }() // judged at the end of the history
+						pack.ToBytesPack(t)
+					}()
+					continue
+				}
 				if o.n < 0 {
 					r := pack.TextRec{Div: byte(serial % 251), Hash: int32(serial), Text: fmt.Sprintf("text-%d", serial)}
 					serial++
